@@ -1,26 +1,22 @@
-(* Correspondence checker for C14 (Table.equals). *)
-From PdV Require Export Common Equals.
+(* Correspondence checker for C14 (Table.equals): the cells are the python scalars the frames
+   hand out (Model/PyEq.v), compared by the model of _equal_or_same; the operands are python
+   objects (a Table with its origin and orientation, or something else). *)
+From PdV Require Export Common Equals PyEq.
 
-(* canonical comparison tokens of cell values (computed by the harness; H_eqv ties them to
-   _equal_or_same) *)
-Inductive tokv := TM | TN (b : N) | TS (s : str) | TD (z : Z) | TB (b : bool) | TO (s : str).
-
-Definition tok_eqb (a b : tokv) : bool :=
-  match a, b with
-  | TM, TM => true
-  | TN x, TN y => N.eqb x y
-  | TS x, TS y => str_eqb x y
-  | TD x, TD y => Z.eqb x y
-  | TB x, TB y => Bool.eqb x y
-  | TO x, TO y => str_eqb x y
-  | _, _ => false
-  end.
-
-Definition mk (name : str) (dests cols units : list str) (rows : list (list tokv)) : table tokv :=
+Definition mk (name : str) (dests cols units : list str) (rows : list (list pyval)) : table pyval :=
   {| t_name := name; t_dests := dests; t_colnames := cols; t_units := units; t_rows := rows |}.
 
-Definition case : Type := table tokv * table tokv * bool * bool.
+Inductive case :=
+| KTables (a b : pyobj pyval) (ab ba aa bb : bool)    (* a.equals(b), b.equals(a), a.equals(a), b.equals(b) *)
+| KOther (a : pyobj pyval) (tag : N) (r : bool)       (* a.equals(<not a table>) *)
+| KScalars (x y : pyval) (r : bool).                  (* _equal_or_same(x, y) *)
+
+Definition meq := method_equals equal_or_same.
 
 Definition check (c : case) : bool :=
-  let '(a, b, ab, ba) := c in
-  Bool.eqb (equals tok_eqb a b) ab && Bool.eqb (equals tok_eqb b a) ba.
+  match c with
+  | KTables a b ab ba aa bb =>
+      Bool.eqb (meq a b) ab && Bool.eqb (meq b a) ba && Bool.eqb (meq a a) aa && Bool.eqb (meq b b) bb
+  | KOther a tag r => Bool.eqb (meq a (ONotTable tag)) r
+  | KScalars x y r => Bool.eqb (equal_or_same x y) r
+  end.
